@@ -102,8 +102,12 @@ def run(ids, tier):
         meta = json.load(open(os.path.join(d, "meta.json")))
         props = meta.get("checks") or [meta["property"]]
         entry = {"property": meta["property"], "runs": {}}
+        if sh(["git", "-C", "/repo", "apply", "--check", os.path.join(d, "patch.diff")]).returncode != 0:
+            print(sid, "SKIPPED: patch does not apply to /repo HEAD (run `seeded.py rebase`)")
+            continue
+        out_dir = os.environ.get("IRVERIF_SEEDED_OUT") or os.path.join(VERIF, ".work", "seeded-out")
         with Worktree(os.path.join(d, "patch.diff")) as wt:
-            env = dict(os.environ, PYTHONPATH=os.path.join(wt, "src"), IRVERIF_OUT_DIR=os.path.join(VERIF, ".work", "seeded-out"))
+            env = dict(os.environ, PYTHONPATH=os.path.join(wt, "src"), IRVERIF_OUT_DIR=out_dir)
             for p in props:
                 t0 = time.time()
                 r = sh([os.path.join(VERIF, "check"), p, "--tier", tier], env=env, cwd=VERIF, timeout=7200)
